@@ -117,7 +117,7 @@ func (c *fakeConn) IsValid() bool {
 
 func (c *fakeConn) Prepare(q string) (driver.Stmt, error) {
 	c.use(q)
-	return &fakeStmt{q: q}, nil
+	return &fakeStmt{q: q, c: c}, nil
 }
 func (c *fakeConn) Close() error {
 	c.mu.Lock()
@@ -147,7 +147,7 @@ func (c *fakeConn) QueryContext(ctx context.Context, q string, args []driver.Nam
 	for i := range args {
 		vals[i] = args[i].Value
 	}
-	return (&fakeStmt{q: q}).Query(vals)
+	return (&fakeStmt{q: q, c: c}).Query(vals)
 }
 
 type fakeTx struct{}
@@ -155,7 +155,10 @@ type fakeTx struct{}
 func (fakeTx) Commit() error   { return nil }
 func (fakeTx) Rollback() error { return nil }
 
-type fakeStmt struct{ q string }
+type fakeStmt struct {
+	q string
+	c *fakeConn
+}
 
 func (s *fakeStmt) Close() error  { return nil }
 func (s *fakeStmt) NumInput() int { return -1 }
@@ -176,19 +179,35 @@ var reSelectList = regexp.MustCompile(`(?is)^\s*select\s+(?:sql_no_cache\s+)?(.*
 func (s *fakeStmt) Query(args []driver.Value) (driver.Rows, error) {
 	q := strings.ToUpper(s.q)
 	switch {
-	case strings.Contains(q, "INFORMATION_SCHEMA.COLUMNS"):
+	case strings.Contains(q, "INFORMATION_SCHEMA.COLUMNS"), strings.Contains(q, "STATISTICS"):
+		// fault injection by table name: T_QERR* = the query fails, T_NOCOL* = no such table,
+		// T_NOIDX* = a table without any index (the client refuses it)
 		tbl := "T_USER"
 		if len(args) > 1 {
 			if t, ok := args[1].(string); ok {
-				tbl = t
+				tbl = strings.ToUpper(t)
 			}
 		}
-		cols := []string{"TABLE_NAME", "TABLE_SCHEMA", "COLUMN_NAME", "DATA_TYPE", "COLUMN_TYPE", "COLUMN_KEY", "IS_NULLABLE", "COLUMN_DEFAULT", "EXTRA"}
-		return &fakeRows{cols: cols, data: [][]driver.Value{
-			{tbl, "db", "id", "bigint", "bigint(20)", "PRI", "NO", nil, ""},
-			{tbl, "db", "name", "varchar", "varchar(64)", "", "YES", nil, ""},
-		}}, nil
-	case strings.Contains(q, "STATISTICS"):
+		if s.c != nil {
+			s.c.use("META " + s.q[:40] + " /*table " + tbl + "*/")
+		}
+		isCols := strings.Contains(q, "INFORMATION_SCHEMA.COLUMNS")
+		if strings.HasPrefix(tbl, "T_QERR") {
+			return nil, errors.New("fake driver: injected query error")
+		}
+		if isCols {
+			cols := []string{"TABLE_NAME", "TABLE_SCHEMA", "COLUMN_NAME", "DATA_TYPE", "COLUMN_TYPE", "COLUMN_KEY", "IS_NULLABLE", "COLUMN_DEFAULT", "EXTRA"}
+			if strings.HasPrefix(tbl, "T_NOCOL") {
+				return &fakeRows{cols: cols}, nil
+			}
+			return &fakeRows{cols: cols, data: [][]driver.Value{
+				{tbl, "db", "id", "bigint", "bigint(20)", "PRI", "NO", nil, ""},
+				{tbl, "db", "name", "varchar", "varchar(64)", "", "YES", nil, ""},
+			}}, nil
+		}
+		if strings.HasPrefix(tbl, "T_NOIDX") || strings.HasPrefix(tbl, "T_NOCOL") {
+			return &fakeRows{cols: []string{"INDEX_NAME", "COLUMN_NAME", "NON_UNIQUE"}}, nil
+		}
 		return &fakeRows{cols: []string{"INDEX_NAME", "COLUMN_NAME", "NON_UNIQUE"}, data: [][]driver.Value{
 			{"PRIMARY", "id", int64(0)},
 		}}, nil
